@@ -296,7 +296,8 @@ func c10Fields(m proto.Message) ([]c10Field, error) {
 	return out, nil
 }
 
-// c10FrameCoq renders one message as the model's [frame]: G [(num, V v) | (num, L len) | (num, X)].
+// c10FrameCoq renders one message as the model's [frame]: G [fv num v | fl num len | fx num]
+// (Exec/C10.v: fv n v = (n, V v), fl n l = (n, L l), fx n = (n, X)).
 func c10FrameCoq(m proto.Message) string {
 	fs, err := c10Fields(m)
 	if err != nil {
@@ -306,11 +307,11 @@ func c10FrameCoq(m proto.Message) string {
 	for i, f := range fs {
 		switch f.Wt {
 		case 0:
-			parts[i] = fmt.Sprintf("(%d, V %d)", f.Num, f.Val)
+			parts[i] = fmt.Sprintf("fv %d %d", f.Num, f.Val)
 		case 2:
-			parts[i] = fmt.Sprintf("(%d, L %d)", f.Num, f.Val)
+			parts[i] = fmt.Sprintf("fl %d %d", f.Num, f.Val)
 		default:
-			parts[i] = fmt.Sprintf("(%d, X)", f.Num)
+			parts[i] = fmt.Sprintf("fx %d", f.Num)
 		}
 	}
 	return "G [" + strings.Join(parts, "; ") + "]"
